@@ -64,6 +64,27 @@ func (d *Document) AddVariableValueArgument(argName, variableName []byte) (varia
 	return
 }
 
+// variableDefaultValue returns the default value of the variable with the given name, as declared by
+// an operation that is part of the document (variables are scoped to their operation, see
+// GetVariableBooleanValue). A default has to be constant: one that mentions a variable does not count.
+func (d *Document) variableDefaultValue(name string) (value Value, ok bool) {
+	for _, node := range d.RootNodes {
+		if node.Kind != NodeKindOperationDefinition || !d.OperationDefinitions[node.Ref].HasVariableDefinitions {
+			continue
+		}
+		for _, i := range d.OperationDefinitions[node.Ref].VariableDefinitions.Refs {
+			if d.VariableDefinitionNameString(i) != name || !d.VariableDefinitions[i].DefaultValue.IsDefined {
+				continue
+			}
+			if d.ValueContainsVariable(d.VariableDefinitions[i].DefaultValue.Value) {
+				return Value{}, false
+			}
+			return d.VariableDefinitions[i].DefaultValue.Value, true
+		}
+	}
+	return Value{}, false
+}
+
 func (d *Document) GetVariableBooleanValue(name string) (value, valid bool) {
 	val, err := jsonparser.GetBoolean(d.Input.Variables, name)
 	if err == nil {
